@@ -159,6 +159,10 @@ pub fn generate<W: Write>(c: &mut Cases<W>, rng: &mut Rng, thorough: bool, which
             }
         }
     }
+    // C08: the public builder with the setters in either order (the budget set first or last)
+    if which == "C08" {
+        generate_public(c, rng, 36_000_000, &[(false, 2usize, true), (false, 2, false), (true, 3, true)]);
+    }
     // C17: the public budget setter with degenerate values (0, 1, not a multiple of the bound size) under
     // both reallocation policies: the buffer is never a zero-sized allocation, nothing panics, the
     // output is the sorted input
@@ -224,6 +228,10 @@ fn emit_sorter_case<W: Write>(c: &mut Cases<W>, which: &str, cfg: &SortCfg, ins:
         cfg.threshold, cfg.realloc as u8, cfg.max_chunks, cfg.init_cap, cfg.stable as u8, cfg.parallel as u8
     ));
     c.line(&format!("small {}", all_small as u8));
+    for (k, v) in ins.iter() {
+        c.line(&format!("input {} {}", hex(k), hex(v)));
+    }
+    c.checkpoint();
     // run 1: per-insert state, then stream
     let ctr = Rc::new(Counters::default());
     let mf = LoggingConcat { calls: RefCell::new(Vec::new()), fail_at: None, sort: !cfg.stable };
@@ -323,7 +331,12 @@ fn emit_sorter_case<W: Write>(c: &mut Cases<W>, which: &str, cfg: &SortCfg, ins:
 
 /// numeric-only runs with the real (clamped) thresholds and no hooks: sizes only
 pub fn generate_real<W: Write>(c: &mut Cases<W>, rng: &mut Rng) {
-    for (realloc, maxc) in [(true, 3usize), (false, 2), (true, 1)] {
+    generate_public(c, rng, 64_000_000, &[(true, 3usize, false), (false, 2, false), (true, 1, false), (false, 2, true)]);
+}
+
+/// the public builder only (no hooks), setters called in either order: sizes and chunk counts per insert
+pub fn generate_public<W: Write>(c: &mut Cases<W>, rng: &mut Rng, volume: usize, grid: &[(bool, usize, bool)]) {
+    for &(realloc, maxc, budget_last) in grid {
         let threshold = 10_485_760usize + if realloc { 0 } else { 7 };
         c.begin("sortnum");
         c.line("prop C08");
@@ -332,11 +345,15 @@ pub fn generate_real<W: Write>(c: &mut Cases<W>, rng: &mut Rng) {
         let ctr = Rc::new(Counters::default());
         let mf = LoggingConcat { calls: RefCell::new(Vec::new()), fail_at: None, sort: false };
         let mut b = SorterBuilder::new(mf);
-        b.dump_threshold(threshold).allow_realloc(realloc).max_nb_chunks(maxc);
+        if budget_last {
+            b.allow_realloc(realloc).max_nb_chunks(maxc).dump_threshold(threshold);
+        } else {
+            b.dump_threshold(threshold).allow_realloc(realloc).max_nb_chunks(maxc);
+        }
         let mut sorter = b.chunk_creator(CountingCreator { ctr: ctr.clone() }).build();
         let mut total = 0usize;
         let mut i = 0u64;
-        while total < 64_000_000 {
+        while total < volume {
             let vlen = match rng.below(4) { 0 => 0, 1 => rng.below(2_000_000) as usize, _ => rng.below(60_000) as usize };
             let k = i.to_be_bytes();
             let v = vec![0u8; vlen];
